@@ -75,7 +75,7 @@ func aclHandler(w *workerCtx, line []byte) (any, error) {
 		select {
 		case n := <-done:
 			obs.Trailing = n
-		case <-time.After(5 * time.Second):
+		case <-idleAfter(5 * time.Second):
 			obs.Trailing = -1 // session not ended
 		}
 	default:
